@@ -74,7 +74,7 @@ func (c17) Plan(tier string) core.Plan {
 		return core.Plan{Seeded: 1600}
 	}
 	if tier == "thorough" {
-		return core.Plan{Seeded: 400000}
+		return core.Plan{Seeded: 160000}
 	}
 	return core.Plan{Seeded: 24000}
 }
